@@ -2,13 +2,41 @@
 """Regenerates /verif/MANIFEST.json from the table below (run from /verif)."""
 import json, sys
 
-CLAIMED = {
- # id: (technique, level text, level_note, design_ref)
- "C13": ("static: E-PANIC reachability of termination constructs + E-GUARD edge-cut reachability on SSA",
-         "Decides structural necessary conditions only: from the session-description entry points no repository code path contains an explicit panic/Fatal/Exit or an undischarged single-value type assertion, constant submatch indexes are within the pattern's groups, and every caller dereferences the returned description only behind the err == nil edge. A violation is a concrete crash path in the source; the behaviour (round-trip equality, third-party parser robustness) is not decided.",
-         "Trusted: go/types, go/ssa, third-party parsers (pion/sdp, pion/ice, encoding/json) never panic; variable-index slice accesses are not analysed.",
-         "DESIGN.md section 2, C13"),
+import subprocess
+
+TECH = {
+ "C01": "static: constant/table agreement between client and server glue, provenance of carrier preamble (go/ssa)",
+ "C02": "static: who-may-write + must-lockset + value provenance + edge-cut reachability on SSA",
+ "C03": "static: edge-cut reachability on NAT comparisons, constant-table agreement, comparator shape",
+ "C04": "static: channel-operation classification, must-pass-through path pairing, must-lockset",
+ "C05": "static: value provenance and edge-cut reachability on the server carrier path, who-may-call",
+ "C06": "static: edge-cut reachability (guards before dial/registration), provenance of matcher operands",
+ "C07": "static: sink wiring by edge-cut reachability, regexp/syntax delimiter analysis, taint to PT log",
+ "C08": "static: syntactic CIDR extraction from IsLocal, filter-shape reachability, sanitiser dominance",
+ "C09": "static: io.Reader-contract rule on SSA, mask/shift constant tables, EOF edge shape",
+ "C10": "static: constant agreement encoder/decoder, must-pass-through for SetMaxBuf, state-machine edges",
+ "C11": "static: store-order rule for fronting, limit/status edge guards, codec constant agreement",
+ "C12": "static: schema identity (types), edge-cut reachability of success returns through validations",
+ "C13": "static: termination-construct reachability (E-PANIC) + use-after-error edge-cut reachability",
+ "C14": "static: termination-construct reachability from HTTP handlers, label-set agreement, status mapping paths",
+ "C15": "static: close-once/typestate rule, lockset x channel-mode rule, capacity gate reachability, nil-after-error summaries",
+ "C16": "static: path pairing of slot get/ret over the CFG with hand-off events, arithmetic shape",
+ "C17": "static: goroutine-exit channel rule, copy-on-enqueue provenance, close-once order, expiry comparison shape",
+ "C18": "static: sanitiser shape reachability, provenance of address through the ring map, ring index arithmetic shape",
+ "C19": "static: taint to logger through binCount, must-lockset/atomic discipline, predicate orientation",
+ "C20": "static: flow-sensitive must-lockset against an explicit guarded-by table, atomic discipline, lock pairing/order",
 }
+
+def load_meta():
+    out = subprocess.run(["/verif/bin/sfcheck", "-list"], capture_output=True, text=True, check=True).stdout
+    return json.loads(out)
+
+META = load_meta()
+CLAIMED = {}
+for pid, m in META.items():
+    text = ("Structural necessary conditions only (level 'other'): " + m["explanation"])
+    note = "Not decided: " + m["not_decided"] + " Trusted/assumed: " + "; ".join(m["assumptions"]) + "; go/types and go/ssa (x/tools v0.29.0)."
+    CLAIMED[pid] = (TECH[pid], text, note, "DESIGN.md section 2, " + pid)
 
 NOT_YET = "not claimed yet: rule set for this property is still under construction (see DESIGN.md section 2 for the planned structural clauses)"
 
